@@ -20,7 +20,7 @@ ROOT = Path(__file__).resolve().parent.parent
 
 def _reexec_with_env():
     """Own the interpreter-level nondeterminism: hash seed, bytecode files."""
-    want = {"PYTHONHASHSEED": "0", "PYTHONDONTWRITEBYTECODE": "1", "MXLPY_VERIF": "1"}
+    want = {"PYTHONHASHSEED": "0", "PYTHONDONTWRITEBYTECODE": "1", "MXLPY_VERIF": "1", "TQDM_DISABLE": "1"}
     if all(os.environ.get(k) == v for k, v in want.items()):
         return
     env = dict(os.environ)
